@@ -329,3 +329,47 @@ pub fn drive_vec_convert<T, U>(
         Err(p) => Err(VecFail::Panic(p)),
     }
 }
+
+/// Reference model of a record variant with more fields than serde's tuple impls reach (16): the
+/// same wire shape as a tuple (`serialize_tuple(N)` / `deserialize_tuple(N)`, elements in order).
+#[macro_export]
+macro_rules! wide_model {
+    ($name:ident, $refname:ident, $n:expr, $( $f:ident : $t:ty ),+ ) => {
+        #[allow(dead_code)]
+        struct $name { $( $f: $t ),+ }
+        impl<'de> $crate::serde::Deserialize<'de> for $name {
+            fn deserialize<D: $crate::serde::Deserializer<'de>>(d: D) -> Result<Self, D::Error> {
+                struct V;
+                impl<'de> $crate::serde::de::Visitor<'de> for V {
+                    type Value = $name;
+                    fn expecting(&self, f: &mut std::fmt::Formatter) -> std::fmt::Result {
+                        write!(f, "a tuple of size {}", $n)
+                    }
+                    fn visit_seq<A: $crate::serde::de::SeqAccess<'de>>(self, mut seq: A) -> Result<$name, A::Error> {
+                        let mut i = 0usize;
+                        $(
+                            let $f: $t = match seq.next_element()? {
+                                Some(x) => x,
+                                None => return Err($crate::serde::de::Error::invalid_length(i, &self)),
+                            };
+                            i += 1;
+                        )+
+                        let _ = i;
+                        Ok($name { $( $f ),+ })
+                    }
+                }
+                d.deserialize_tuple($n, V)
+            }
+        }
+        #[allow(dead_code)]
+        struct $refname<'a> { $( $f: &'a $t ),+ }
+        impl<'a> $crate::serde::Serialize for $refname<'a> {
+            fn serialize<S: $crate::serde::Serializer>(&self, s: S) -> Result<S::Ok, S::Error> {
+                use $crate::serde::ser::SerializeTuple;
+                let mut t = s.serialize_tuple($n)?;
+                $( t.serialize_element(self.$f)?; )+
+                t.end()
+            }
+        }
+    };
+}
